@@ -10,7 +10,15 @@
    * the result of the certificate branch is returned only if its kind is one the caller asked
      for (`authData.AuthType & requiredAuthType != 0`, the second half of the F3 repair);
      [check_auth_gen false _] is the branch before the role-CA repair (334cc83),
-     [check_auth_gen _ false] the branch before the mask test.
+     [check_auth_gen _ false] the branch before the mask test;
+   * the credentials of a request are a COMBINATION: client certificate (q_tls) x auth_cookie
+     (k_cookie) x Authorization: Basic header (k_basic), any subset present at once, looked at
+     in the code's order: certificate branch, then the cookie, and the basic-auth header only
+     when the request carries NO auth_cookie at all (a cookie that does not verify is a refusal,
+     not a fall-through);
+   * the deny list (Config.DenyTrustData.KeyDenyFPsshSha256) is a LIST of key fingerprints of any
+     length; the leaf key is a fingerprint too;
+   * getRequiredWebUIAuthLevel() is computed from the configured backend list.
    Users are numbers (0 = the empty string); levels are N bit masks. *)
 From Coq Require Import ZArith List Bool.
 From KM Require Import Base.Bytes Model.Auth.
@@ -30,7 +38,7 @@ Record chain := {
 Record tlsx := {
   x_chains : list chain;   (* r.TLS.VerifiedChains, at least one *)
   x_cn : N;                (* common name of the leaf (the same leaf starts every chain) *)
-  x_denied : bool;         (* leaf key is on Config.DenyTrustData.KeyDenyFPsshSha256 *)
+  x_key : N;               (* fingerprint of the leaf's public key *)
   x_nb : Z;                (* leaf NotBefore *)
   x_ip_error : bool;       (* VerifyIPRestrictedX509CertIP(leaf, r.RemoteAddr) returned an error *)
   x_ip_valid : bool;       (* extension present and the TCP peer inside one of its blocks *)
@@ -38,11 +46,40 @@ Record tlsx := {
   x_automation : bool;     (* CN is a configured automation identity *)
   x_revoked : bool }.      (* revocation check succeeded and says revoked *)
 
+(* Authorization: Basic <user:password> *)
+Record basicx := {
+  b_user : N;              (* user name after reprocessUsername *)
+  b_ok : bool;             (* the password backend accepts the pair *)
+  b_err : bool }.          (* the password backend fails *)
+
+(* what the request carries besides the connection's certificate *)
+Record credx := {
+  k_cookie : option token; (* the LAST cookie named auth_cookie, if there is one; a value that is not
+                              a JWT at all is a token without trusted signer *)
+  k_basic : option basicx }.
+
+Definition no_cred : credx := {| k_cookie := None; k_basic := None |}.
+Definition cookie_only (t : token) : credx := {| k_cookie := Some t; k_basic := None |}.
+Definition basic_only (u : N) (ok err : bool) : credx :=
+  {| k_cookie := None; k_basic := Some {| b_user := u; b_ok := ok; b_err := err |} |}.
+
 Record reqx := {
   q_meth : meth;
   q_origin : origin;       (* Origin, else Referer, compared with Host *)
   q_tls : option tlsx;     (* Some iff r.TLS != nil and it has at least one verified chain *)
-  q_cred : cred }.
+  q_cred : credx }.
+
+(* the loop over Config.DenyTrustData.KeyDenyFPsshSha256: any position counts *)
+Definition deny_hit (deny : list N) (key : N) : bool := existsb (N.eqb key) deny.
+
+(* getRequiredWebUIAuthLevel(): the bits of the configured backends (unknown names add nothing) *)
+Inductive backend := BPassword | BFederated | BU2F | BVIP | BTOTP | BOkta | BBootstrap | BOther.
+Definition backend_bit (b : backend) : N :=
+  match b with
+  | BPassword => bPassword | BFederated => bFederated | BU2F => bU2F | BVIP => bVIP
+  | BTOTP => bTOTP | BOkta => bOkta | BBootstrap => bBootstrap | BOther => 0
+  end.
+Definition webui_level (l : list backend) : N := fold_left (fun a b => N.lor a (backend_bit b)) l 0.
 
 (* getUsernameIfKeymasterSigned *)
 Inductive kmres := KmNone | KmErr | KmOk.
@@ -58,8 +95,8 @@ Fixpoint km_walk (skip_role : bool) (denied : bool) (l : list chain) : kmres :=
   end.
 
 (* `err == nil && tlsAuthUser != ""` *)
-Definition km_user (skip_role : bool) (c : tlsx) : bool :=
-  match km_walk skip_role (x_denied c) (x_chains c) with
+Definition km_user (skip_role : bool) (deny : list N) (c : tlsx) : bool :=
+  match km_walk skip_role (deny_hit deny (x_key c)) (x_chains c) with
   | KmOk => negb (x_cn c =? 0)
   | _ => false
   end.
@@ -73,8 +110,8 @@ Definition ip_res (c : tlsx) : ipres :=
   else if x_revoked c then IpUserErr else IpOk.
 
 (* the certificate branch: Some result = return, None = go on to cookies *)
-Definition tls_branch (skip_role mask_test : bool) (now : Z) (required : N) (c : tlsx) : option result :=
-  let km := km_user skip_role c in
+Definition tls_branch (skip_role mask_test : bool) (now : Z) (deny : list N) (required : N) (c : tlsx) : option result :=
+  let km := km_user skip_role deny c in
   let lvl0 := if km then bKMX509 else 0 in
   let iat0 := if km then x_nb c else 0%Z in
   let fin (lvl : N) (iat : Z) (named : bool) :=
@@ -89,22 +126,29 @@ Definition tls_branch (skip_role mask_test : bool) (now : Z) (required : N) (c :
     end
   else fin lvl0 iat0 km.
 
-Definition cookie_branch (now : Z) (limiter_ok : bool) (required : N) (cr : cred) : result :=
-  match cr with
-  | NoCred => Refuse 401
-  | Basic u ok berr =>
+(* the basic-auth code (reached only when there is no auth_cookie and the mask has the password bit) *)
+Definition basic_branch (now : Z) (limiter_ok : bool) (b : option basicx) : result :=
+  match b with
+  | None => Refuse 401
+  | Some b =>
+      if negb limiter_ok then Refuse 429
+      else if b_err b then Refuse 500
+      else if b_ok b then Admit (b_user b) bPassword now else Refuse 401
+  end.
+
+Definition cookie_branch (now : Z) (limiter_ok : bool) (required : N) (cr : credx) : result :=
+  match k_cookie cr with
+  | None =>
       if negb (hasb required bPassword) then Refuse 401
-      else if negb limiter_ok then Refuse 429
-      else if berr then Refuse 500
-      else if ok then Admit u bPassword now else Refuse 401
-  | Cookie t =>
-      if negb (token_ok now t) then Refuse 401
+      else basic_branch now limiter_ok (k_basic cr)
+  | Some t =>
+      if negb (token_ok now t) then Refuse 401          (* whatever else the request carries *)
       else if (t_exp t <? now)%Z then Refuse 401
       else if negb (hasb (t_level t) required) then Refuse 401
       else Admit (t_sub t) (t_level t) (t_iat t)
   end.
 
-Definition check_auth_gen (skip_role mask_test : bool) (now : Z) (limiter_ok : bool) (required : N) (q : reqx) : result :=
+Definition check_auth_gen (skip_role mask_test : bool) (now : Z) (limiter_ok : bool) (deny : list N) (required : N) (q : reqx) : result :=
   let csrf :=
     match q_meth q with
     | GET => None
@@ -118,7 +162,7 @@ Definition check_auth_gen (skip_role mask_test : bool) (now : Z) (limiter_ok : b
   | Some x => x
   | None =>
       let t := match q_tls q with
-               | Some c => if hasb required (N.lor bIPCert bKMX509) then tls_branch skip_role mask_test now required c else None
+               | Some c => if hasb required (N.lor bIPCert bKMX509) then tls_branch skip_role mask_test now deny required c else None
                | None => None
                end in
       match t with
@@ -139,10 +183,10 @@ Definition valid_cookie (now : Z) (t : token) : Prop :=
   t_iss_ok t = true /\ t_aud_ok t = true /\ t_kind t = 0 /\ (t_nbf t <= now <= t_exp t)%Z.
 
 (* a keymaster-issued user certificate: some verified chain of at least two elements whose
-   issuer is NOT the role CA and whose issuer key is a keymaster key; the leaf key is not on the
-   deny list; the certificate names somebody *)
-Definition km_cert (c : tlsx) : Prop :=
-  x_cn c <> 0 /\ x_denied c = false /\
+   issuer is NOT the role CA and whose issuer key is a keymaster key; the leaf key is at NO
+   position of the deny list; the certificate names somebody *)
+Definition km_cert (deny : list N) (c : tlsx) : Prop :=
+  x_cn c <> 0 /\ ~ In (x_key c) deny /\
   exists ch, In ch (x_chains c) /\ ch_len2 ch = true /\ ch_role_ca ch = false /\ ch_key_trusted ch = true.
 
 (* an IP-restricted automation certificate presented from inside its netblocks *)
@@ -150,11 +194,12 @@ Definition ip_cert (c : tlsx) : Prop :=
   x_cn c <> 0 /\ x_ip_error c = false /\ x_ip_valid c = true /\ x_auto_error c = false /\
   x_automation c = true /\ x_revoked c = false.
 
-Definition proves (now : Z) (q : reqx) (u l : N) : Prop :=
-  (exists t, q_cred q = Cookie t /\ valid_cookie now t /\ u = t_sub t /\ l = t_level t) \/
-  (exists berr, q_cred q = Basic u true berr /\ l = bPassword) \/
+(* some credential among those the request carries establishes (u, l) *)
+Definition proves (now : Z) (deny : list N) (q : reqx) (u l : N) : Prop :=
+  (exists t, k_cookie (q_cred q) = Some t /\ valid_cookie now t /\ u = t_sub t /\ l = t_level t) \/
+  (exists b, k_basic (q_cred q) = Some b /\ b_ok b = true /\ u = b_user b /\ l = bPassword) \/
   (exists c, q_tls q = Some c /\ u = x_cn c /\
      (l = bKMX509 \/ l = bIPCert \/ l = N.lor bKMX509 bIPCert) /\
-     (hasb l bKMX509 = true -> km_cert c) /\ (hasb l bIPCert = true -> ip_cert c)).
+     (hasb l bKMX509 = true -> km_cert deny c) /\ (hasb l bIPCert = true -> ip_cert c)).
 
 Definition origin_ok (q : reqx) : Prop := q_origin q = NoOrigin \/ q_origin q = SameOrigin.
